@@ -380,6 +380,12 @@ impl RoomPowerLevels {
 
     /// Get the power level required to send the given state event type.
     pub fn for_state(&self, state_type: StateEventType) -> Int {
+        // The authorization rules compare the sender of an `m.room.third_party_invite` event with
+        // the `invite` level, not with the level of the event type.
+        if state_type == StateEventType::RoomThirdPartyInvite {
+            return self.invite;
+        }
+
         self.events.get(&state_type.into()).copied().unwrap_or(self.state_default)
     }
 
